@@ -666,7 +666,8 @@ theorem cutStrCore_regex_compress (line : Bytes) (opt : Opt) (eol : Bytes) (bag 
     (R : Bytes) (hre : opt.regexBag = some bag) (hr : opt.replaceDelimiter = some R)
     (hp : opt.compressDelimiter = true)
     (hty : opt.boundsType = .fields ∨ opt.boundsType = .lines)
-    (hne : replaceMatches (trimmedRe opt bag line) R 0 (bag.greedy (trimmedRe opt bag line)) ≠ []) :
+    (hne : trimmedRe opt bag line ≠ [] →
+      replaceMatches (trimmedRe opt bag line) R 0 (bag.greedy (trimmedRe opt bag line)) ≠ []) :
     (cutStrCore line opt eol).1 =
       if (trimmedRe opt bag line).isEmpty then
         (if !opt.onlyDelimited then Run.ok eol else Run.empty)
@@ -688,6 +689,7 @@ theorem cutStrCore_regex_compress (line : Bytes) (opt : Opt) (eol : Bytes) (bag 
     unfold afterTrim
     rw [if_pos he]
   · rw [if_neg he]
+    have hne := hne (fun h => he (by rw [h]; rfl))
     generalize hl2 : replaceMatches line' R 0 (bag.greedy line') = line2 at hne ⊢
     have he2 : ¬ line2.isEmpty = true := by
       intro h; exact hne (List.isEmpty_iff.mp h)
@@ -757,21 +759,13 @@ theorem cutStr_regex_compress_eq_spec (opt : Opt) (bag : RegexBag) (line : Bytes
     unfold specRecordRe trimmedRe
     rcases hty with hty | hty <;>
       simp only [cfgOf, hp, hr, hty, Option.isNone_some, Bool.and_false, Bool.false_eq_true,
-        if_false, decide_true, Bool.or_true, Bool.true_or, Bool.and_self]
-  rw [hspec]
+        if_false, decide_true, Bool.or_true, Bool.true_or, Bool.and_self] <;> rfl
+  rw [hspec, cutStrCore_regex_compress line opt _ bag R hre hr hp hty
+    (fun hne => replaceMatches_ne_nil _ R hR _ hne)]
   by_cases he : (trimmedRe opt bag line).isEmpty = true
-  · rw [cutStrCore_regex_compress line opt _ bag R hre hr hp hty
-      (by
-        have : trimmedRe opt bag line = [] := List.isEmpty_iff.mp he
-        rw [this]
-        cases hm : bag.greedy [] with
-        | nil => sorry
-        | cons m t => obtain ⟨s, e⟩ := m; simp [replaceMatches, hR])]
-    sorry
-  · have hne : trimmedRe opt bag line ≠ [] := by
-      intro h; rw [h] at he; exact he rfl
-    rw [cutStrCore_regex_compress line opt _ bag R hre hr hp hty
-      (replaceMatches_ne_nil _ R hR _ hne), if_neg he, if_neg he]
+  · rw [if_pos he, if_pos he]
+    cases opt.onlyDelimited <;> simp
+  · rw [if_neg he, if_neg he]
     exact cutStr_eq_spec_gen (literalAfterCompress opt R) _ hR rfl hty hjson hz hL
 
 end Tuc
